@@ -14,6 +14,14 @@
 #include "flavor.h"
 #include "oracle.h"
 
+/*
+ * Harness bookkeeping that runs right next to the window under test (e.g. just
+ * after rcu_thread_online() returns): not instrumented, so that it adds no
+ * yield point and -- being a store to shared harness memory -- does not push
+ * the calling thread's simulated store buffer out (DESIGN.md 2.15).
+ */
+#define HARNESS_BOOKKEEPING __attribute__((no_sanitize("thread"), noinline))
+
 #define MAX_SCRIPT_THREADS 8
 #define MAX_OPS 24
 
